@@ -46,6 +46,17 @@ def sh(cmd, timeout=None, env=None, cwd=None):
 _workdirs = []
 
 
+def sweep_stale():
+    """remove work directories left behind by runs whose process is gone (killed or timed-out runs)"""
+    root = os.path.join(BUILD, 'run')
+    if not os.path.isdir(root):
+        return
+    for d in os.listdir(root):
+        m = re.search(r'-(\d+)$', d)
+        if m and not os.path.exists('/proc/%s' % m.group(1)):
+            shutil.rmtree(os.path.join(root, d), ignore_errors=True)
+
+
 def workdir(tag):
     d = os.path.join(BUILD, 'run', '%s-%d' % (tag, os.getpid()))
     shutil.rmtree(d, ignore_errors=True)
@@ -298,6 +309,26 @@ def exec_at_line_file(path, line):
     if start is None:
         return None
     return start, [json.loads(x) for x in buf if x.strip()]
+
+
+def resets_at_lines(path, lines):
+    """{line: reset event of the execution containing that 1-based line} in one pass over the file"""
+    want = sorted(set(lines))
+    out = {}
+    if not want:
+        return out
+    cur = None
+    wi = 0
+    with open(path) as f:
+        for i, raw in enumerate(f, 1):
+            if '"k":"reset"' in raw:
+                cur = raw
+            while wi < len(want) and want[wi] == i:
+                out[i] = json.loads(cur) if cur else None
+                wi += 1
+            if wi >= len(want):
+                break
+    return out
 
 
 _line_rx = re.compile(r'^\{"t":(-?\d+),"k":"([^"]*)","o":"([^"]*)","i":-?\d+,"v":(-?\d+),.*?"s":(\d),"a":-?\d+')
